@@ -96,8 +96,14 @@ func unitOf(p *core.Program, v ssa.Value, depth int) string {
 }
 
 // containerUnit: the unit of positions/lengths of a container value.
-func containerUnit(c ssa.Value) string {
+func containerUnit(c ssa.Value) string { return containerUnitRec(c, map[ssa.Value]bool{}) }
+
+func containerUnitRec(c ssa.Value, seen map[ssa.Value]bool) string {
 	c = core.StripType(c)
+	if seen[c] {
+		return "" // a loop-carried merge: the other edges decide
+	}
+	seen[c] = true
 	if b, ok := c.Type().Underlying().(*types.Basic); ok && b.Info()&types.IsString != 0 {
 		return "bytes"
 	}
@@ -122,11 +128,14 @@ func containerUnit(c ssa.Value) string {
 			}
 		}
 	case *ssa.Slice:
-		return containerUnit(x.X)
+		return containerUnitRec(x.X, seen)
 	case *ssa.Phi:
 		u := ""
 		for _, e := range x.Edges {
-			eu := containerUnit(e)
+			if seen[core.StripType(e)] {
+				continue
+			}
+			eu := containerUnitRec(e, seen)
 			if u != "" && eu != u {
 				return "mixed"
 			}
